@@ -1,9 +1,14 @@
 (* Case decoder / result encoder for property C01 (see tools/gen_c01.py and harness/src/c01.rs
    for the same language on the other two sides).
      (1 1 shape data req probes write)   access: write = () | ((idx) v)
-     (1 2 shape datalen)                 constructors over data = [0 .. datalen) *)
+     (1 2 shape datalen)                 constructors over data = [0 .. datalen)
+     (1 3 shape req probes)              Tensor::from_fn(shape, producer) with
+                                         producer [i0; i1; ..] = fold (acc * 7 + i + 1) from 1000,
+                                         then access by req: (shape-of-tensor data
+                                         (access-shape probe-results)); every length and the
+                                         element count must be <= 65536 (else bad case) *)
 From Coq Require Import List ZArith NArith Bool.
-From EasyML Require Import Base.Sx Model.Shape Model.Tensor.
+From EasyML Require Import Base.Sx Model.Shape Model.Tensor Model.TensorFn.
 Import ListNotations.
 
 Definition c01_access (sh : shape) (data : list Z) (req : list name) (probes : list (list N))
@@ -27,6 +32,17 @@ Definition c01_ctor (sh : shape) (len : N) : sx :=
   SL [ soutcome payload (tensor_from sh (iota len));
        soutcome payload (tensor_try_from sh (iota len)) ].
 
+Definition c01_producer (idx : list N) : Z :=
+  fold_left (fun acc i => acc * 7 + Z.of_N i + 1)%Z idx 1000%Z.
+
+Definition c01_from_fn (sh : shape) (req : list name) (probes : list (list N)) : sx :=
+  soutcome (fun t =>
+    SL [ sshape (t_shape t); slist SZ (t_data t);
+         soutcome (fun a => SL [ sshape (access_shape a);
+                                 slist (fun p => sopt SZ (access_get a p)) probes ])
+                  (access_try_from t req) ])
+    (tensor_from_fn sh c01_producer).
+
 Definition run_c01 (args : list sx) : sx :=
   match args with
   | [SZ 1%Z; sh; data; req; probes; write] =>
@@ -38,6 +54,15 @@ Definition run_c01 (args : list sx) : sx :=
              && match write with Some (i, _) => Nat.eqb (length i) (length sh) | None => true end
           then c01_access sh data req probes write else bad_case
       | _, _, _, _, _ => bad_case
+      end
+  | [SZ 3%Z; sh; req; probes] =>
+      match dshape sh, dnames req, dlist didx probes with
+      | Some sh, Some req, Some probes =>
+          if forallb (fun p => Nat.eqb (length p) (length sh)) probes
+             && Nat.eqb (length req) (length sh)
+             && forallb (fun d => (snd d <=? 65536)%N) sh && (elements sh <=? 65536)%N
+          then c01_from_fn sh req probes else bad_case
+      | _, _, _ => bad_case
       end
   | [SZ 2%Z; sh; len] =>
       match dshape sh, dN len with
